@@ -267,8 +267,6 @@ def run(pid, tier, seed, replay=None, props=None):
     cases = cfg.get("runner", run_worlds)(worlds)
     if "post" in cfg:
         cases = cfg["post"](cases)
-    for c in cases:
-        res.count("tag:" + (c.result.world.tag or "world").split("@")[0])
     if "unit_stream" in cfg:
         # unit-level part of the property (e.g. C03: adversarial names must be refused when the torrent is loaded)
         lines = cfg["unit_stream"](tier, seed)
